@@ -8,8 +8,7 @@
   fires, loop passes and worker completions), arbitrary cron functions, offsets, worker counts and
   hash functions.
 -/
-import Influx.Lemmas.SchedLog
-import Influx.Spec.C24
+import Influx.Lemmas.SchedHolds
 
 namespace Influx.Props.C24
 open Influx.Model.Sched Influx.Lemmas.Sched
@@ -227,5 +226,27 @@ example :
     let cfg : Cfg := { nworkers := 2, hash := fun id => id }
     let s := reach true cfg [.schedule 1 (cronEvery 10) 0 0, .advance 10000, .timerFire, .wake, .iter, .done 1]
     s.mode = .idle ∧ s.tick = false ∧ timerExpired s = false ∧ s.when_ = some 20000 ∧ s.log.length = 3 := by decide
+
+/-- **The run-time checker accepts the model** (partial): for every history of Schedule / Release /
+    clock-advance (/ new / unblock) operations — any number of tasks, schedules, offsets, clock steps —
+    in which the environment holds no executor and the real-clock operation is not used, and in which
+    every run-to-quiescence of the model came to rest within its fuel (`allQuiet`, decidable, true of
+    every generated history), the statement checker `Spec.C24.holdsOn` accepts the model's trace:
+    order/once/not-early, nothing after release, nothing due left at quiescence, `When()` in the
+    future and not after the earliest pending due time.
+    Missing for the full statement: histories with executors held by the environment (`block`), where
+    the checker's exclusive-run clause and the exemption of held workers come into play — covered by
+    C24_exclusive on the fine-grained model and by the correspondence run — and the `spin` operation
+    (its content is C24_no_spin / C24_unrepaired_spins). -/
+theorem C24_holdsOn_partial (ops : List Spec.C24.Op) (hplain : ∀ op ∈ ops, plainOp op = true)
+    (hq : allQuiet ops = true) : Spec.C24.holdsOn (trace ops) = true := by
+  unfold Spec.C24.holdsOn trace
+  rw [check_trace ops {} {} rel_init hplain hq]
+
+-- the hypotheses of C24_holdsOn_partial are met by non-trivial histories
+example : let ops : List Spec.C24.Op :=
+      [.new 2, .sched 1 true 10 0 0, .sched 2 false 5 2500 3, .adv 10000, .rel 1, .adv 30000, .sched 1 true 10 0 40, .adv 10000]
+    (∀ op ∈ ops, plainOp op = true) ∧ allQuiet ops = true ∧ (trace ops).length = 8 := by
+  decide
 
 end Influx.Props.C24
